@@ -6,14 +6,16 @@ from common import Case
 LAYOUTS = {  # name: (ksz, ksigned, vsz)
     'u64u64': (8, False, 8), 'u32u32': (4, False, 4), 'u8u64': (1, False, 8),
     'u64u8': (8, False, 1), 'u16u32': (2, False, 4), 'i64u16': (8, True, 2), 'ckey': (8, False, 8),
-    'u8u8': (1, False, 1), 'u16u16': (2, False, 2),
+    'u8u8': (1, False, 1), 'u16u16': (2, False, 2), 'u128u64': (16, False, 8),
+    'f64u64': (8, False, 8),   # partially ordered keys (NaN): implementation-only totality batch
 }
 
 def key_range(lay):
     ksz, sg, _ = LAYOUTS[lay]
     if sg:
         return -(1 << (8 * ksz - 1)), (1 << (8 * ksz - 1)) - 1
-    return 0, (1 << (8 * ksz)) - 1
+    # the harness parses keys as i128
+    return 0, min((1 << (8 * ksz)) - 1, (1 << 127) - 1)
 
 def val_max(lay):
     return (1 << (8 * LAYOUTS[lay][2])) - 1
@@ -39,7 +41,7 @@ def pick_universe(rng, lay, n, extremes=False):
 def avl_history(rng, cid, bits=None, lay=None, cap=None, length=None, grow=False, mode='persistent',
                 extremes=False, fills=True, queries=True):
     bits = bits or rng.choice([32, 32, 8])
-    lay = lay or rng.choice(list(LAYOUTS))
+    lay = lay or rng.choice([l for l in LAYOUTS if l != 'f64u64'])
     if cap is None:
         cap = rng.choice([1, 1, 2, 2, 3, 3, 4, 5, 6, 7, 8, 10, 12, 16])
     uni = pick_universe(rng, lay, cap + 3, extremes)
@@ -584,7 +586,7 @@ def arr_history(rng, cid, p=None, vty=None, slots=None, length=None, mode='persi
         if grow and x < 0.05:
             ops.append('ext %d' % rng.choice([1, 1, 2, 3])); continue
         if x < 0.25:
-            q = rng.choice(['get', 'has', 'len', 'full', 'empty', 'deref', 'gmut'])
+            q = rng.choice(['get', 'has', 'len', 'full', 'empty', 'deref', 'gmut', 'openmut'])
             if q in ('get', 'has'):
                 ops.append('%s %s' % (q, cell(rng.choice(uni))))
             elif q == 'gmut':
@@ -645,6 +647,22 @@ def arr_large_case(rng, cid, n=33000):
            'take %d 0' % (top + 7), 'take 5 0', 'has %d 0' % top, 'len', 'full']
     return Case(cid, 'arr', {'p': 2, 'vty': 'u32', 'raw': raw.hex(), 'mode': 'persistent'}, ops, {'stream': 'L'})
 
+def arr_prefix_max_cases(prefix_id):
+    """a two-byte prefix holding exactly 65535 members in more slots than that (full by the prefix), and
+    a four-byte prefix holding more than 65535 members (not full)"""
+    out = []
+    n = 65535
+    cells = [(2 * i + 3, 0) for i in range(n)]
+    raw = arr_encode(2, 'u32', n, cells + [(0, 0)] * 5)
+    ops = ['len', 'full', 'ins 1 0', 'len', 'has 3 0', 'take 3 0', 'full', 'ins 1 0', 'ins 2 0', 'len', 'full']
+    out.append(Case(prefix_id + 'a', 'arr', {'p': 2, 'vty': 'u32', 'raw': raw.hex(), 'mode': 'persistent'}, ops, {'stream': 'L'}))
+    n = 65537
+    cells = [(2 * i + 3, 0) for i in range(n)]
+    raw = arr_encode(4, 'u32', n, cells + [(0, 0)] * 3)
+    ops = ['len', 'full', 'ins 1 0', 'ins 2 0', 'len', 'full', 'ins 0 0', 'full', 'ins 4 0', 'take 1 0', 'len']
+    out.append(Case(prefix_id + 'b', 'arr', {'p': 4, 'vty': 'u32', 'raw': raw.hex(), 'mode': 'persistent'}, ops, {'stream': 'L'}))
+    return out
+
 def arr_exhaustive(p, vty, slots, m, L, prefix_id):
     vals = list(range(1, m + 1))
     alphabet = ['ins %d 0' % k for k in vals] + ['take %d 0' % k for k in vals]
@@ -677,7 +695,7 @@ def arr_single_steps(rng, p, vty, max_len, prefix_id, lookups_only=False):
             if not lookups_only:
                 single += ['ins %d %d' % (k, 5 if vty == 'pair' else 0) for k in probes] + ['take %d 0' % k for k in probes] + ['rem %d 0' % k for k in probes]
             for op in single:
-                out.append(Case('%s%d' % (prefix_id, cid), 'arr', hdr, ['len', op, 'deref', 'len', 'full'], {'stream': 'S', 'n': n}))
+                out.append(Case('%s%d' % (prefix_id, cid), 'arr', hdr, ['len', 'openmut', op, 'deref', 'openmut', 'len', 'full'], {'stream': 'S', 'n': n}))
                 cid += 1
     return out
 
@@ -743,10 +761,26 @@ def pstr_trailing_cases(prefix_id):
             buf = le(len(body), p) + body + junk
             ops = ['setbuf %s' % buf.hex(), 'ro', 'new', 'asstr', 'ro']
             out.append(Case('%s%d' % (prefix_id, cid), 'pstr', {'p': p, 'size': len(buf)}, ops, {'stream': 'B'})); cid += 1
+        for extra in (1, 3, 17):
+            body = b'hello'
+            buf = le(len(body) + extra, p) + body
+            out.append(Case('%s%d' % (prefix_id, cid), 'pstr', {'p': p, 'size': len(buf)}, ['setbuf %s' % buf.hex(), 'ro'], {'stream': 'B', 'expect_panic': True})); cid += 1
         for text, cut in (('aé', 2), ('€', 1), ('€', 2), ('\U0001d11e', 3), ('ab€', 3)):
             b = text.encode()
             buf = le(cut, p) + b
             ops = ['setbuf %s' % buf.hex(), 'ro']
+            out.append(Case('%s%d' % (prefix_id, cid), 'pstr', {'p': p, 'size': len(buf)}, ops, {'stream': 'B'})); cid += 1
+    return out
+
+def pstr_maxlen_cases(prefix_id):
+    """recorded length at the prefix maximum: the last bytes decide validity"""
+    out = []
+    cid = 0
+    for p, mx in ((1, 255), (2, 65535), (2, 65534)):
+        for tail in (b'\xc3', b'\xc3\xa9', b'\xe2\x82', b'\xe2\x82\xac', b'a', b'\xff'):
+            body = b'a' * (mx - len(tail)) + tail
+            buf = le(mx, p) + body + b'zz'
+            ops = ['setbuf %s' % buf.hex(), 'ro', 'new', 'asstr']
             out.append(Case('%s%d' % (prefix_id, cid), 'pstr', {'p': p, 'size': len(buf)}, ops, {'stream': 'B'})); cid += 1
     return out
 
@@ -767,6 +801,11 @@ def pstr_oversize_cases(prefix_id, thorough):
         body = b'a' * (mx + 3)
         init = bytes(p) + body
         out.append(Case('%s%d' % (prefix_id, cid), 'pstr', {'p': p, 'size': len(init), 'init': init.hex()}, ['new', 'size', 'asstr', 'ro'], {'stream': 'B'})); cid += 1
+        # bytes that are not UTF-8 (or an unfinished character) behind the largest expressible length:
+        # they are trailing data, new() must still hand out the mx bytes before them
+        for junk in (b'\xff\xfe\x80\xc3', b'\xf0\x9f\x98', b'\x80', b'\xc3'):
+            init = bytes(p) + b'z' * mx + junk
+            out.append(Case('%s%d' % (prefix_id, cid), 'pstr', {'p': p, 'size': len(init), 'init': init.hex()}, ['new', 'size', 'asstr', 'ro'], {'stream': 'B'})); cid += 1
     return out
 
 def podstr_validator_cases(thorough, prefix_id):
@@ -781,6 +820,12 @@ def podstr_validator_cases(thorough, prefix_id):
             ops.append('asstr')
             ops.append('disp')
         out.append(Case('%s%d' % (prefix_id, ci // chunk), 'podstr', {'n': 8}, ops, {'stream': 'B'}))
+        ops = []
+        for pb in probes[ci:ci + chunk]:
+            ops.append('copysl %s' % hx(b'abcdefgh' + pb))
+            ops.append('asstr')
+            ops.append('disp')
+        out.append(Case('%st%d' % (prefix_id, ci // chunk), 'podstr', {'n': 10}, ops, {'stream': 'B'}))
     return out
 
 def pstr_history(rng, cid, p=None, size=None):
@@ -800,7 +845,10 @@ def pstr_history(rng, cid, p=None, size=None):
         else:
             ops += ['size', 'new', 'asstr']
     ops += ['ro', 'size']
-    return Case(cid, 'pstr', {'p': p, 'size': size}, ops, {'stream': 'H'})
+    hdr = {'p': p, 'size': size}
+    if rng.random() < 0.4:
+        hdr['odd'] = 1
+    return Case(cid, 'pstr', hdr, ops, {'stream': 'H'})
 
 def pstr_cut_cases(p, prefix_id):
     """every cut position through strings mixing 1-4 byte characters and NULs"""
